@@ -34,6 +34,23 @@ def _serif():
     return serif
 
 
+def accessor_names(t, j):
+    """attribute names under which column j of table t is reachable — found through the public API only (dir + getattr);
+    calling the private _build_column_map() directly would tame renamed columns behind the table's back"""
+    base = set(dir(type(t)))
+    col = t.cols()[j]
+    out = []
+    for n in dir(t):
+        if n in base or n.startswith("_"):
+            continue
+        try:
+            if getattr(t, n) is col:
+                out.append(n)
+        except Exception:
+            pass
+    return out
+
+
 class World:
     def __init__(self):
         self.slots = [None] * NSLOTS
@@ -154,6 +171,30 @@ def poke_step(rng, w, slot):
     return None
 
 
+# read-only operations whose result is thrown away (all of them must leave every live object as it was)
+PROBES_V = {"unique": lambda o: o.unique(), "invert": lambda o: ~o, "pluck": lambda o: o.pluck(0), "argsort": lambda o: o.argsort(),
+            "isna": lambda o: o.isna(), "sum": lambda o: o.sum(), "max": lambda o: o.max(), "min": lambda o: o.min(),
+            "mean": lambda o: o.mean(), "stdev": lambda o: o.stdev(), "any": lambda o: o.any(), "all": lambda o: o.all(),
+            "iter": lambda o: list(o), "contains": lambda o: 1 in o, "schema": lambda o: o.schema(), "shape": lambda o: o.shape(),
+            "upper": lambda o: o.upper(), "year": lambda o: o.year, "eqs": lambda o: o == 1, "matmul": lambda o: o @ o,
+            "to_object": lambda o: o.to_object(), "dropna": lambda o: o.dropna(), "cast": lambda o: o.cast(str),
+            "radd": lambda o: [0] * len(o) + o, "rlshift": lambda o: [9] << o, "neg": lambda o: -o, "abs": lambda o: abs(o),
+            "getneg": lambda o: o[-1], "rev": lambda o: o[::-1], "index": lambda o: o.index(1), "count": lambda o: o.count(1),
+            "ndims": lambda o: o.ndims(), "T": lambda o: o.T, "hash": lambda o: o.fingerprint(), "str": lambda o: str(o)}
+PROBES_T = {"peek": lambda o: o.peek(), "iter": lambda o: [list(r) for r in o], "cols": lambda o: o.cols(),
+            "column_names": lambda o: o.column_names(), "schema": lambda o: o.schema(), "shape": lambda o: o.shape(),
+            "eqs": lambda o: o == 1, "row0": lambda o: list(o[0]), "rowneg": lambda o: list(o[-1]), "rev": lambda o: o[::-1],
+            "selall": lambda o: o[tuple(n for n in o.column_names() if isinstance(n, str))], "isna": lambda o: o.isna(),
+            "neg": lambda o: -o, "mul": lambda o: o * 2, "sortall": lambda o: o.sort_by(o.cols()[0], reverse=True),
+            "agg": lambda o: o.aggregate(over=o.cols()[0], sum_over=o.cols()[-1], mean_over=o.cols()[-1], min_over=o.cols()[-1],
+                                         max_over=o.cols()[-1], stdev_over=o.cols()[-1]),
+            "win": lambda o: o.window(over=o.cols()[0], sum_over=o.cols()[-1], max_over=o.cols()[-1]),
+            "selfjoin": lambda o: o.inner_join(o, o.cols()[0], o.cols()[0], expect="many_to_many"),
+            "fulljoin": lambda o: o.full_join(o[::-1], o.cols()[0], o.cols()[0], expect="many_to_many"),
+            "dir": lambda o: dir(o), "str": lambda o: str(o), "T": lambda o: o.T, "to_object": lambda o: o.to_object(),
+            "dropna": lambda o: o.dropna(), "unique": lambda o: o.unique(), "sum": lambda o: o.sum()}
+
+
 def choose_step(rng, w, flavor, last=None):
     """draw one applicable concrete step for the current world"""
     if last is not None and rng.random() < 0.55:
@@ -172,11 +213,12 @@ def choose_step(rng, w, flavor, last=None):
     menu += [("newvec", 3), ("newtab", 3)]
     if vecs:
         menu += [("copy", 1), ("slice", 1), ("mask", 1), ("write", 6), ("setname", 1), ("arith", 1), ("compare", 1),
-                 ("fingerprint", 2), ("repr", 1), ("sortv", 1), ("sharevec", 1), ("tabfrom", 2), ("unary", 1), ("fillna", 1)]
+                 ("fingerprint", 2), ("repr", 1), ("sortv", 1), ("sharevec", 1), ("tabfrom", 2), ("unary", 1), ("fillna", 1),
+                 ("probe", 3)]
     if tabs:
         menu += [("copy", 1), ("slice", 2), ("mask", 1), ("select", 2), ("getcol", 5), ("tabwrite", 5), ("rename", 2),
                  ("T", 1), ("sort", 1), ("join", 1), ("aggregate", 1), ("window", 1), ("tarith", 1), ("fingerprint", 3),
-                 ("repr", 1), ("stackdict", 1), ("append", 1), ("renames", 1)]
+                 ("repr", 1), ("stackdict", 1), ("append", 1), ("renames", 1), ("probe", 3)]
     if tabs and vecs:
         menu += [("setattr", 5), ("stack", 3), ("stackdictv", 2)]
     if tabs:
@@ -334,6 +376,9 @@ def choose_step(rng, w, flavor, last=None):
         return {"op": "fingerprint", "r": anyobj()}
     if op == "repr":
         return {"op": "repr", "r": anyobj()}
+    if op == "probe":
+        r = anyobj()
+        return {"op": "probe", "r": r, "f": rng.choice(sorted(PROBES_V if r in vecs else PROBES_T))}
     if op == "sharevec":
         return {"op": "sharevec", "dst": dst, "src": rng.choice(vecs)}
     if op == "drop":
@@ -377,17 +422,17 @@ def run_step(w, st):
                 nm = t.column_names()[j]
                 c = t[nm] if isinstance(nm, str) else t.cols()[j]
             else:
-                acc = [k for k, v in t._build_column_map().items() if v == j]
+                acc = accessor_names(t, j)
                 c = getattr(t, acc[0]) if acc else t.cols()[j]
             extra["is_col"] = [c is x for x in t.cols()].index(True) if any(c is x for x in t.cols()) else None
             sl[st["dst"]] = c
         elif op == "setattr":
             t = sl[st["t"]]
-            acc = [k for k, v in t._build_column_map().items() if v == st["j"]]
+            acc = accessor_names(t, st["j"])
             setattr(t, acc[0], sl[st["src"]])
         elif op == "setattr_list":
             t = sl[st["t"]]
-            acc = [k for k, v in t._build_column_map().items() if v == st["j"]]
+            acc = accessor_names(t, st["j"])
             name = acc[0] if acc else None
             if st.get("indexed") and name is not None:
                 import re
@@ -456,6 +501,14 @@ def run_step(w, st):
             extra["fp"] = o.fingerprint()
         elif op == "repr":
             extra["repr_len"] = len(repr(sl[st["r"]]))
+        elif op == "probe":
+            o = sl[st["r"]]
+            f = (PROBES_T if isinstance(o, _serif().Table) else PROBES_V).get(st["f"])
+            try:
+                if f is not None:
+                    f(o)
+            except Exception as e:
+                extra["probe_err"] = err_class(e)
         elif op == "sharevec":
             sl[st["dst"]] = Vector(sl[st["src"]]._underlying, name=sl[st["src"]].name)
         elif op == "drop":
@@ -504,7 +557,7 @@ def applicable(w, st):
             "stackdict": [("a", "t")], "stackdictv": [("a", "t"), ("src", "v")], "append": [("a", "t")], "appendt": [("a", "t"), ("b", "t")], "T": [("src", "t")],
             "sort": [("src", "t")], "sortv": [("src", "v")], "aggregate": [("src", "t")], "window": [("src", "t")],
             "join": [("L", "t"), ("R", "t")], "arith": [("a", "v")], "tarith": [("a", "t")], "compare": [("a", "v")],
-            "unary": [("a", "v")], "fillna": [("a", "v")], "fingerprint": [("r", "vt")], "repr": [("r", "vt")],
+            "unary": [("a", "v")], "fillna": [("a", "v")], "fingerprint": [("r", "vt")], "repr": [("r", "vt")], "probe": [("r", "vt")],
             "sharevec": [("src", "v")], "tabfrom": []}.get(op, [])
     for f, allowed in need:
         if k(st.get(f)) is None or k(st[f]) not in allowed:
